@@ -65,6 +65,62 @@ def users_of(f, local):
     return out
 
 
+SELECTORS = ("max_by_key", "min_by_key", "max_by", "min_by")
+
+
+def _sig(e, out):
+    """order-free signature of an expression: the fields it reads and the operations it applies"""
+    if isinstance(e, tuple) and e:
+        if e[0] == "fld" and isinstance(e[2], str):
+            out.append("f:" + e[2])
+        elif e[0] == "bin":
+            out.append("op:" + str(e[1]).replace("_ov", ""))
+        elif e[0] == "call":
+            out.append("call:" + e[1].split("<")[0].split("::")[-1])
+        for x in e:
+            _sig(x, out)
+
+
+def winner_is_its_key(facts, f, t):
+    """`iter.max_by_key(K).map(M)`: the element that wins a tie depends on the iteration order; the answer does not if
+    what is taken from the winner (M) is the key itself (K)"""
+    from ..symex import PathLimit, SymEx
+
+    def closure_of(term, idx):
+        if len(term[5]) <= idx or term[5][idx][0] not in ("cp", "mv"):
+            return None
+        l = term[5][idx][1][0]
+        for _, s2 in f.all_stmts():
+            if s2[KIND] == "a" and s2[4][0] == l and s2[5][0] == "agg" and s2[5][1][0] == "closure":
+                return facts.fn(s2[5][1][1])
+        return None
+
+    def ret_sig(g):
+        if g is None:
+            return None
+        sx = SymEx(g, max_paths=8, facts=facts)
+        try:
+            ps = sx.run(0)
+        except PathLimit:
+            return None
+        rs = [p.env.get(0) for p in ps if p.end == "return"]
+        if len(rs) != 1 or rs[0] is None:
+            return None
+        o = []
+        _sig(rs[0], o)
+        return sorted(o)
+
+    k = ret_sig(closure_of(t, 1))
+    if k is None or t[6] is None or t[6][1]:
+        return False
+    # the consumer of the winner
+    for _, t2 in f.calls():
+        if t2 is not t and any(a[0] in ("cp", "mv") and a[1][0] == t[6][0] for a in t2[5]) and (callee(t2) or "").split("::")[-1] == "map":
+            m = ret_sig(closure_of(t2, 1))
+            return m is not None and m == k
+    return False
+
+
 def follow(f, di, b, t, depth=0):
     """terminal consumer of the iterator produced by call t: (terminal_name, detail)"""
     dest = t[6]
@@ -115,7 +171,7 @@ def follow(f, di, b, t, depth=0):
                     if r[0] == "rv" and r[1][5][0] == "ref" and not r[1][5][1][1] and seq_used_as_singleton(f, r[1][5][1][0]):
                         return ("collect-singleton", target)
                 return ("collect-seq", target)
-            return (name, "")
+            return (name, ut if name in SELECTORS else "")
     return ("unused", "")
 
 
@@ -215,7 +271,58 @@ def classify_loop(f, next_block):
     exits = len(exit_targets)
     if exits > 1:
         return ("for-first-match", "%d exits" % exits)
+    # insertions into a map are order-free only when no two iterations can write the same key: the key must be (made
+    # from) the key of the element being iterated; a key taken from the element's *value* (the constructor names of
+    # a type declaration, keyed by the type's name) can repeat, and then the last iteration wins
+    foreign = _foreign_key_inserts(f, next_block, body)
+    if foreign:
+        return ("for-insert-foreign-key", foreign)
     return ("for-insensitive", "inserts=%d" % len(inserts))
+
+
+def _foreign_key_inserts(f, next_block, body):
+    from ..rules.chainwalk import taint
+
+    t = f.term(next_block)
+    if t[KIND] != "call" or t[6] is None or t[6][1]:
+        return None
+    dest = t[6][0]
+    elem, k_seed, v_seed = set(), set(), set()
+    for b, s in f.all_stmts():
+        if s[KIND] != "a" or s[4][1]:
+            continue
+        for pl in ([s[5][1]] if s[5][0] in ("ref", "raw") else [s[5][1][1]] if s[5][0] == "use" and s[5][1][0] in ("cp", "mv") else []):
+            if pl[0] != dest:
+                continue
+            flds = [e[1] for e in pl[1] if isinstance(e, list) and e[0] == "f"]
+            if any(isinstance(e, list) and e[0] == "d" for e in pl[1]) and flds[:1] == [0]:
+                if len(flds) == 1:
+                    elem.add(s[4][0])
+                elif flds[1] == 0:
+                    k_seed.add(s[4][0])
+                else:
+                    v_seed.add(s[4][0])
+    # `(k, v)` destructured in a second step
+    for b, s in f.all_stmts():
+        if s[KIND] == "a" and not s[4][1] and s[5][0] == "use" and s[5][1][0] in ("cp", "mv") and s[5][1][1][0] in elem:
+            flds = [e[1] for e in s[5][1][1][1] if isinstance(e, list) and e[0] == "f"]
+            if flds[:1] == [0]:
+                k_seed.add(s[4][0])
+            elif flds[:1] and flds[0] >= 1:
+                v_seed.add(s[4][0])
+    if not v_seed:
+        return None  # a set, or the value is never looked at
+    tk, tv = taint(f, sorted(k_seed)) if k_seed else set(), taint(f, sorted(v_seed))
+    for b in body:
+        tt = f.term(b)
+        if tt[KIND] != "call":
+            continue
+        c = callee(tt) or ""
+        if c.split("::")[-1] == "insert" and ("Map" in c) and len(tt[5]) >= 2 and tt[5][1][0] in ("cp", "mv"):
+            kl = tt[5][1][1][0]
+            if kl in tv and kl not in tk:
+                return "insert keyed by a part of the element's value"
+    return None
 
 
 def rule_hash_iteration(ck, facts, cg, par):
@@ -245,13 +352,16 @@ def rule_hash_iteration(ck, facts, cg, par):
             if key in seen_keys:
                 continue
             seen_keys[key] = 1
-            if term in INSENSITIVE or term in ("collect-map", "collect-sorted", "collect-singleton", "for-insensitive", "unused", "stored"):
+            if term in SELECTORS and not (isinstance(detail, list) and winner_is_its_key(facts, f, detail)):
+                ck.bad(R, key + "|tie", "%s selects an element of a %s with `%s` and then uses more of the winner than the key it was selected by: among elements with equal keys the one met last in iteration order wins, so the outcome depends on the per-process hash seed" % (f.short, kind, term), f.where(t))
+            elif term in INSENSITIVE or term in ("collect-map", "collect-sorted", "collect-singleton", "for-insensitive", "unused", "stored"):
                 ck.ok(R, key, {"fn": root, "container": kind, "consumer": term, "at": f.where(t)})
             else:
                 why = {
                     "collect-seq": "collected into a sequence without sorting",
                     "for-push": "a loop that appends/emits in iteration order",
                     "for-first-match": "a loop that stops at the first match",
+                    "for-insert-foreign-key": "a loop that inserts into a map under a key taken from the element's value (two elements can carry the same key, and then the one iterated last wins)",
                 }.get(term, "consumed by `%s`, whose result depends on iteration order" % term)
                 ck.bad(R, key, "%s iterates a %s and the result is %s: the outcome depends on the per-process hash seed%s" % (f.short, kind, why, " / interning history" if kind == "BTree-by-id" else ""), f.where(t))
     ck.floor(R, "unordered_iteration_sites", n, 12)
@@ -298,6 +408,30 @@ def rule_id_order(ck, facts, cg, par):
                     root = f.root.split("::", 1)[1]
                     ck.bad(R, "sort|%s" % root, "%s sorts a sequence of interner ids: order follows interning history" % f.short, f.where(t))
     ck.floor(R, "ordering_sites_examined", n, 4)
+
+
+def rule_id_text(ck, facts, cg, par):
+    """an interner id printed into generated text makes the text depend on what was interned before"""
+    R = "C15.id-order"
+    QUIET = ("log::", "$crate::log", "panic", "assert", "unreachable", "todo", "unimplemented", "eprintln", "println", "dbg", "debug_assert", "tracing")
+    n = 0
+    for p in sorted(par):
+        f = cg.fns.get(p)
+        if f is None or roles.is_derived(f) or f.kind == "promoted":
+            continue
+        for b, t in f.calls():
+            c = callee(t) or ""
+            if c.split("::")[-1] != "new_debug" or "fmt" not in c:
+                continue
+            a0 = (t[4].get("a0") or "") if isinstance(t[4], dict) else ""
+            if not any(x in a0 for x in ID_TYPES):
+                continue
+            if t[1] and any(any(q in m for q in QUIET) for m in t[1]):
+                continue  # a log line or an abort message
+            n += 1
+            root = f.root.split("::", 1)[1] if "::" in f.root else f.root
+            ck.bad(R, "id-text|%s|%s" % (root, a0.split("::")[-1].rstrip(">]")), "%s formats a value of type %s with `{:?}` into a string it builds: the Debug form of an interned id contains its index in the process-wide interner (`name(90)`), so a label or key made from it changes with whatever was compiled before in the same process" % (f.short, a0), f.where(t))
+    ck.setcount("id_debug_format_sites", n)
 
 
 def rule_ambient(ck, facts, cg, par):
@@ -387,5 +521,6 @@ def run(ck, facts, tier):
     ck.floor("C15.anchor", "functions_on_compile_path", len([p for p in par if p in cg.fns]), 1500)
     rule_hash_iteration(ck, facts, cg, par)
     rule_id_order(ck, facts, cg, par)
+    rule_id_text(ck, facts, cg, par)
     rule_ambient(ck, facts, cg, par)
     ck.not_decided("byte equality of bytecode listings / WASM bytes across processes; global counters flowing into generated names (listed under C16)")
